@@ -3,11 +3,15 @@ Proofs/RxGnfaGlue.lean — glue between C12 (state elimination, `Spec/GnfaRx.lea
 the parser obligation `C12_parser_full` that C12 leaves open is discharged by the C10 theorems
 for `compile s := language of NFA.from_regex(s)` (model `fromRegex s none`).
 
-One caveat, visible in the statement: C12's literal predicate `IsLit` uses `pyIsSpace`, which
-lists the white-space characters up to U+00A0 only; Python's `\s` (our `isPySpace`) also contains
-U+1680, U+2000–U+200A, U+2028, U+2029, U+202F, U+205F, U+3000, which the real lexer rejects with
-`LexerError`.  The theorem therefore assumes that no character of the string is one of those
-(`pyIsSpace c = false → isPySpace c = false`); with `pyIsSpace` completed the hypothesis is void.
+`translate` / `parser_of_C10` carry the hypothesis `pyIsSpace c = false → isPySpace c = false` from
+the time when C12's `pyIsSpace` listed the white-space characters up to U+00A0 only; the two
+predicates are the same function now (`pyIsSpace_eq_isPySpace := rfl` in Props/C12b.lean), so the
+hypothesis is void and `C12_parser_full_holds` discharges it.
+
+The second half of the file is the explicit-alphabet form (`NFA.from_regex(s, input_symbols=Σ)`):
+`lits_tr` (the literals of the tree occur in the string), `compile_explicit` (from `C10_compile`;
+`hres` follows from `IsLit`, `hlits` from the character invariant of Proofs/GnfaAlphabet.lean) and
+`fromRegex_nil_explicit`.
 -/
 import AutomataVerif.Props.C10
 import AutomataVerif.Spec.GnfaRx
